@@ -272,6 +272,8 @@ class Gen:
                 d.constructors.append(Constructor(d.lname, self.tag() if explicit else None, explicit, fs))
             elif kind == "typedef":
                 d.inner = self.type_ref(1, [], [])
+                while d.inner.kind == "bool":  # a typedef of Bool does not compile with TL2 (finding F18): kept out of ordinary schemas
+                    d.inner = self.type_ref(1, [], [])
                 d.constructors.append(Constructor(d.lname, self.tag() if explicit else None, explicit, []))
             elif kind == "enum":
                 for v in range(2 + r.below(3)):
